@@ -1,6 +1,6 @@
 //! Job runner, violation classes, known-findings matching, evidence and replay
 //! files. Exit codes: 0 held, 1 violation, 2 machinery failure.
-use crate::explore::{explore_all, Chooser, Stats};
+use crate::explore::{explore_from, Chooser, Stats};
 use serde_json::{json, Value};
 use std::cell::RefCell;
 use std::collections::hash_map::DefaultHasher;
@@ -65,6 +65,10 @@ pub struct Job {
   /// is a panic escaping from the library a violation of *this* property?
   /// (C05, C10: yes; elsewhere the execution is counted as aborted)
   pub panic_is_violation: bool,
+  /// short signature used in the class key of a hang
+  pub sig: String,
+  /// explore only the subtree below this choice prefix
+  pub root: Vec<u32>,
   pub run: Box<dyn Fn(&mut Chooser, &mut Obs) + Send + Sync>,
 }
 
@@ -73,10 +77,18 @@ impl Job {
     name: impl Into<String>,
     run: impl Fn(&mut Chooser, &mut Obs) + Send + Sync + 'static,
   ) -> Job {
-    Job { name: name.into(), dev_bound: 0, max_execs: u64::MAX, panic_is_violation: false, run: Box::new(run) }
+    { let name: String = name.into(); Job { sig: name.clone(), name, root: vec![], dev_bound: 0, max_execs: u64::MAX, panic_is_violation: false, run: Box::new(run) } }
   }
   pub fn devs(mut self, d: u32) -> Job {
     self.dev_bound = d;
+    self
+  }
+  pub fn root(mut self, r: Vec<u32>) -> Job {
+    self.root = r;
+    self
+  }
+  pub fn sig(mut self, s: impl Into<String>) -> Job {
+    self.sig = s.into();
     self
   }
   pub fn panics_violate(mut self) -> Job {
@@ -251,7 +263,7 @@ fn worker(sh: std::sync::Arc<Shared>, beat: std::sync::Arc<Mutex<Beat>>) {
     rep.jobs += 1;
     let mut first = true;
     let mut n_exec: u64 = 0;
-    let stats = explore_all(job.dev_bound, job.max_execs, |ch| {
+    let stats = explore_from(&job.root, job.dev_bound, job.max_execs, |ch| {
       {
         let mut b = beat.lock().unwrap();
         b.active = true;
@@ -366,7 +378,7 @@ pub fn run_jobs(jobs: Vec<Job>, threads: usize) -> Report {
           if job.panic_is_violation {
             record_class(
               &mut t,
-              format!("hang:{}", job.name),
+              format!("hang:{}", job.sig),
               i,
               &job.name,
               prefix.clone(),
@@ -532,38 +544,59 @@ pub fn finish(f: Finish, rep: &Report, jobs: &[(String, ())], t0: Instant) -> i3
 }
 
 /// Re-execute one recorded case twice without the explorer and print it.
-pub fn replay(jobs: &[Job], scenario: &str, choices: Vec<u32>) -> i32 {
-  let Some(job) = jobs.iter().find(|j| j.name == scenario) else {
+pub fn replay(jobs: Vec<Job>, scenario: &str, choices: Vec<u32>) -> i32 {
+  let Some(idx) = jobs.iter().position(|j| j.name == scenario) else {
     eprintln!("MACHINERY: scenario not found: {scenario}");
     return 2;
   };
-  let mut outs = vec![];
-  for round in 0..2 {
-    let mut ch = Chooser::new(choices.clone(), u32::MAX);
-    ch.want_labels = true;
-    let obs = run_one(job, &mut ch, true);
-    if round == 0 {
-      println!("scenario: {}", job.name);
-      println!("choices:  {:?}", ch.choices());
-      for l in &ch.labels {
-        println!("  step  {l}");
+  let jobs = std::sync::Arc::new(jobs);
+  let (tx, rx) = std::sync::mpsc::channel();
+  let j2 = jobs.clone();
+  std::thread::spawn(move || {
+    let job = &j2[idx];
+    let mut outs = vec![];
+    for round in 0..2 {
+      let mut ch = Chooser::new(choices.clone(), u32::MAX);
+      ch.want_labels = true;
+      if round == 0 {
+        println!("scenario: {}", job.name);
+        println!("prefix:   {choices:?}");
       }
-      for l in &obs.trace {
-        println!("  trace {l}");
+      let obs = run_one(job, &mut ch, true);
+      if round == 0 {
+        println!("choices:  {:?}", ch.choices());
+        for l in &ch.labels {
+          println!("  step  {l}");
+        }
+        for l in &obs.trace {
+          println!("  trace {l}");
+        }
+        for v in &obs.viol {
+          println!("  VIOLATES {} :: {}", v.class, v.detail);
+        }
+        if obs.aborted_by_panic {
+          println!("  (library panicked: {})", LAST_PANIC.with(|p| p.borrow().clone()));
+        }
       }
-      for v in &obs.viol {
-        println!("  VIOLATES {} :: {}", v.class, v.detail);
+      outs.push((obs.outcome, obs.viol.len()));
+    }
+    let _ = tx.send(outs);
+  });
+  match rx.recv_timeout(std::time::Duration::from_secs(2 * HANG_SECS + 2)) {
+    Ok(outs) => {
+      if outs[0] != outs[1] {
+        eprintln!("MACHINERY: replay not deterministic");
+        return 2;
+      }
+      if outs[0].1 > 0 {
+        1
+      } else {
+        0
       }
     }
-    outs.push((obs.outcome, obs.viol.len()));
-  }
-  if outs[0] != outs[1] {
-    eprintln!("MACHINERY: replay not deterministic");
-    return 2;
-  }
-  if outs[0].1 > 0 {
-    1
-  } else {
-    0
+    Err(_) => {
+      println!("  VIOLATES hang:{} :: execution never returned (blocked for good)", jobs[idx].sig);
+      1
+    }
   }
 }
